@@ -42,6 +42,10 @@ try:
     from . import index_rules as IR
 except ImportError:  # pragma: no cover
     IR = None
+try:
+    from . import bcast_rules as BR
+except ImportError:  # pragma: no cover
+    BR = None
 
 
 def _get(mod, name):
@@ -86,6 +90,7 @@ RULES = {
     "R37": _get(IR, "r37_conv_index_maps"),
     "R38": _get(IR, "r38_matmul_shapes"),
     "R39": _get(IR, "r39_roll_adjoint_of_unroll"),
+    "R40": _get(BR, "r40_broadcast"),
 }
 
 # property -> rules (DESIGN.md section 4)
@@ -93,6 +98,7 @@ PROPERTY_RULES = {
     "C01": ["R9", "R8", "R5", "R27", "R6", "R24", "R11", "R25", "R23", "R26"],
     "C02": ["R12", "R13", "R15", "R9", "R33", "R29", "R31", "R30", "R32", "R39"],
     "C03": ["R11", "R21"],
+    "C04": ["R40"],
     "C05": ["R36", "R38"],
     "C06": ["R37", "R30"],
     "C07": ["R35", "R16"],
@@ -134,6 +140,12 @@ EXPLANATION = {
     "C03": "Clause-level static verdict: shape typestate (R11) proves that every value entering a pending-delta or gradient slot "
            "has been reduced to the owner's dimensions, for the first and every later contribution; R21 adds that the optimizer "
            "builds parameters from the parameter's own dimensions. Does NOT decide the summed values.",
+    "C04": "Clause-level static verdict: element_wise_dimensions pairs the dimension vectors from the last dimension, refuses exactly the pairs "
+           "that are neither equal nor 1 and takes the pairwise maximum (condition and update decided on the finite grid of orderings); add, "
+           "subtract, multiply, divide and axpy apply exactly their scalar operation per element (forward maps in an exact algebra); and every "
+           "place in sliced_op that matches an operand's dimensions against the target uses one alignment (R40).  The last clause FAILS on the "
+           "pinned tree and is recorded as an open known finding (the broadcast check aligns from the last dimension, the slice walk from the "
+           "first). Does NOT decide that a consistently aligned walk visits the right slices (rewinding over interior unit dimensions).",
     "C05": "Clause-level static verdict for operands of rank >= 2 inside one slice: for each of the four transposition assignments the kernel's "
            "index polynomials are the row-major positions of op(A)[r,k], op(B)[k,j] and C[r,j] and the dot product is ADDED onto the (pre-set) "
            "result slice (R36); rows, cols and inner length are read from the right dimensions, the kernel receives them and the operand / flag "
